@@ -14,6 +14,16 @@ mod verif_in_stream {
         Context::from_waker(w)
     }
 
+    /// built the way the library builds it (SubscribeRsp::stream), so that the harness keeps
+    /// compiling when SubscribeStream grows private state
+    fn new_stream(rx: mpsc::UnboundedReceiver<RxPacket>) -> SubscribeStream {
+        let rsp = crate::client::rsp::SubscribeRsp {
+            packet: crate::codec::SubackRx { packet_identifier: NonZero::try_from(1u16).unwrap(), reason_string: None, user_property: UserProperties::new(), payload: Vec::new() },
+            receiver: rx,
+        };
+        rsp.stream()
+    }
+
     static TOPIC: [u8; 3] = *b"a/b";
     fn publish(tag: u8, retain: bool, pid: u16, mei: u32) -> RxPacket {
         let body: &'static [u8; 2] = Box::leak(Box::new([tag, 0xad]));
@@ -44,7 +54,7 @@ mod verif_in_stream {
     pub(crate) fn stream_drain_then_end() {
         let mut cx = task_cx();
         let (tx, rx) = mpsc::unbounded::<RxPacket>();
-        let mut stream = SubscribeStream { receiver: rx };
+        let mut stream = new_stream(rx);
         // nothing queued, context alive
         match Pin::new(&mut stream).poll_next(&mut cx) {
             Poll::Pending => {}
@@ -122,5 +132,37 @@ mod verif_in_stream {
         kani::cover!(true, "both paths exercised");
         core::mem::forget(tx);
         core::mem::forget(r);
+    }
+
+    //@ h name=stream_long_run props=C14,C16 tier=off cap=small to=2400 mem=36
+    //@ claim: over a long uninterrupted run of deliveries a SubscribeStream never answers Pending while a message is queued (it has no licence to return Pending without a registered waker), yields each message on the very next poll, and ends with None once the context is gone
+    //@ bounds: 40 rounds of (one message queued, one poll), payload tag = round, then the sender is dropped and one more poll; queue depth 1 (a 40-deep backlog drained in one go exceeds 12 GB: stream_drain_40 was tried)
+    //@ funcs: SubscribeStream::poll_next, SubscribeRsp::stream, PublishData::from
+    #[kani::proof]
+    #[kani::unwind(42)]
+    pub(crate) fn stream_long_run() {
+        let mut cx = task_cx();
+        let (tx, rx) = mpsc::unbounded::<RxPacket>();
+        let mut stream = new_stream(rx);
+        let mut k = 0u8;
+        while k < 40 {
+            assert!(tx.unbounded_send(publish(k, false, 1, 0)).is_ok());
+            match Pin::new(&mut stream).poll_next(&mut cx) {
+                Poll::Ready(Some(d)) => {
+                    assert!(d.payload()[0] == k, "the message just queued");
+                    core::mem::forget(d);
+                }
+                Poll::Ready(None) => panic!("the stream does not end while the context is alive"),
+                Poll::Pending => panic!("a queued message is yielded on the next poll, however many were yielded before"),
+            }
+            k += 1;
+        }
+        drop(tx);
+        match Pin::new(&mut stream).poll_next(&mut cx) {
+            Poll::Ready(None) => {}
+            _ => panic!("once the context is gone the stream ends; it does not hang"),
+        }
+        kani::cover!(k == 40, "forty deliveries in a row");
+        core::mem::forget(stream);
     }
 }
